@@ -3486,12 +3486,17 @@ class SFTPClientFile:
         data = b''
 
         if offset is not None:
-            if size is None or size < 0:
+            read_to_end = size is None or size < 0
+
+            if read_to_end:
                 size = (await self._end()) - offset
 
             try:
-                if self.read_len and size > \
-                        min(self.read_len, self._handler.limits.max_read_len):
+                # When reading to the end of the file, always use the
+                # reader, as it requests the rest of the data when the
+                # server returns less than what was asked for
+                if self.read_len and (read_to_end or size > \
+                        min(self.read_len, self._handler.limits.max_read_len)):
                     data = await _SFTPFileReader(
                         self.read_len, self._max_requests, self._handler,
                         self._handle, offset, size).run()
